@@ -28,6 +28,9 @@ Event ==
                                    before |-> entries, lookups |-> Ev.lookups]
             [] Ev.ev = "clean" -> [name |-> "clean", before |-> entries, lookups |-> Ev.lookups]
             [] Ev.ev = "age" -> [name |-> "age", before |-> entries, lookups |-> Ev.lookups]
+            [] Ev.ev = "par" -> [name |-> "par", last |-> ToSet(Ev.last), removals |-> ToSet(Ev.removals),
+                                 cleans |-> Ev.cleans, during |-> Ev.during,
+                                 before |-> entries, lookups |-> Ev.lookups]
 
 TraceNext == l <= Len(Trace) /\ l' = l + 1 /\ Event
 
@@ -47,6 +50,72 @@ LookupOK ==
               /\ \E e \in sec : e.nh = lk.nh /\ e.hops = lk.hops /\ e.delay = lk.delay /\ e.src = lk.src
               /\ (\E x \in sec : x.src = "peer") => lk.src = "peer"
               /\ \A x \in sec : ~(x.hops < lk.hops \/ (x.hops = lk.hops /\ x.delay < lk.delay))
+
+-----------------------------------------------------------------------------
+(* Concurrent episodes ("par").  Several goroutines called the table at the *)
+(* same time - AddRoute (mostly re-announcements of known routes),          *)
+(* RemoveNextHop, lookups - while another goroutine ran Clean `cleans`      *)
+(* times; the event is written after ALL calls have returned, `after` and   *)
+(* `lookups` are taken from the quiescent table.  The only order known is   *)
+(* the program order of each goroutine (g = goroutine, k = position of the  *)
+(* call in it).  `last` holds, for every route key written in the episode,  *)
+(* the last AddRoute of it (a key is written by one goroutine only);        *)
+(* `removals` the last RemoveNextHop per peer; `during` lookups that        *)
+(* returned while the episode ran.                                          *)
+(* The clauses demand only what EVERY sequential order of the calls that    *)
+(* respects the program orders yields (a result no such order explains is   *)
+(* the violation); where some order lets a route legitimately go - a        *)
+(* removal of its next hop not ordered before the write, a cleanup that may *)
+(* trim its routing prefix, more keys than a destination keeps - nothing is *)
+(* demanded.                                                                *)
+OrderedBefore(g1, k1, g2, k2) == g1 = g2 /\ k1 < k2
+KeyOf(r) == IF r.src = "peer" THEN <<r.dst, 0, 0, <<>>>> ELSE <<r.dst, r.hops, r.plen, r.relays>>
+ParPrefKeys(p) == {KeyOf(e) : e \in PrefSec(act.before, p)} \cup
+                  {KeyOf(w.route) : w \in {x \in act.last : Prefix(x.route.dst) = p}}
+ParDstKeys(d) == {KeyOf(e) : e \in Sec(act.before, d)} \cup
+                 {KeyOf(w.route) : w \in {x \in act.last : x.route.dst = d}}
+(* no cleanup of the episode can find more than Limit entries in the prefix *)
+NoTrim(d) == Cardinality(ParPrefKeys(Prefix(d))) <= Limit
+(* no addition of the episode can find the destination's section full       *)
+NoEvict(d) == Cardinality(ParDstKeys(d)) <= 3
+
+(* P2, 'added' means present: the last write of a route that was reported   *)
+(* as added is in the table when everything has returned.                   *)
+ParAdded ==
+  act.name = "par" =>
+    \A w \in act.last :
+      ( /\ w.added
+        /\ \A r \in act.removals : r.peer = w.route.nh => OrderedBefore(r.g, r.k, w.g, w.k)
+        /\ (w.route.src # "peer" => NoEvict(w.route.dst))
+        /\ (w.route.src = "gossip" => NoTrim(w.route.dst)) )
+      => w.route \in entries
+(* P7: no route keeps a removed next hop (unless some write of a route over  *)
+(* it may have come later).                                                  *)
+ParRemoved ==
+  act.name = "par" =>
+    \A r \in act.removals :
+      (\A w \in act.last : w.route.nh = r.peer => OrderedBefore(w.g, w.k, r.g, r.k))
+      => \A e \in entries : e.nh # r.peer
+(* P3: a direct-peer route disappears only through a removal naming it.     *)
+ParPeers ==
+  act.name = "par" =>
+    \A p \in PeersOf(act.before) : p \in PeersOf(entries) \/ \E r \in act.removals : r.peer = p
+(* P6: no route that had expired before the episode survives its cleanups   *)
+(* (nothing expires during an episode, every write is fresh).               *)
+ParExpired ==
+  (act.name = "par" /\ act.cleans > 0) => \A e \in entries : e.src = "peer" \/ e.exp = "fresh"
+(* P1, first half, while the episode runs: an address that has a route all  *)
+(* the way through is looked up exactly.                                    *)
+ParDuring ==
+  act.name = "par" =>
+    \A i \in DOMAIN act.during :
+      LET lk == act.during[i]
+      IN (\E e \in Sec(act.before, lk.a) :
+             /\ \A r \in act.removals : r.peer # e.nh
+             /\ \/ e.src = "peer"
+                \/ /\ e.exp = "fresh" /\ NoEvict(e.dst)
+                   /\ (e.src = "gossip" => NoTrim(e.dst)))
+         => (lk.found /\ lk.isdst /\ lk.dst = lk.a)
 
 TraceAccepted ==
   LET d == TLCGet("stats").diameter
